@@ -485,7 +485,12 @@ class Unit:
             text_body = '\n'.join(out_lines)
         attrs = ''.join(a[1] + '\n' for a in sec.block('attr'))
         full = attrs + text_sig + '\n' + '\n'.join(contract) + ('\n' if contract else '') + '{' + text_body + '}'
+        mb = mask(text_body)
+        n_closures = len(re.findall(r'(?<![|&\w\)\]])\|(?!\|)[^|\n;{}]*\|(?!\|)', re.sub(r'(forall|exists|choose)\s*\|[^|]*\|', '', mb)))
+        n_loops = len(loops_in(text_body))
         info = {'emitted': emitted, 'file': 'src/' + fname, 'path': path, 'sha': sha, 'line': line,
+                'needs_contract': ((['a closure (Verus needs an explicit closure contract)'] if n_closures and not sec.one('allow-closure') else []) +
+                                   (['%d loop(s) but the contract file provides invariants for %d' % (n_loops, len(sec.block('loop')))] if n_loops > len(sec.block('loop')) else [])),
                 'contract': {kw: (sec.one(kw)[1] + ' ' + sec.one(kw)[2]).strip() for kw in ('requires', 'ensures', 'decreases') if sec.one(kw)}}
         for r in log:
             self.rewrites.append((r[0], r[1], r[2], path))
@@ -755,6 +760,17 @@ def verify_unit(spec_path, canaries='none', rlimit=None, seed=None, keep=True, r
                solver_ms={n: round(v['time_ms'], 1) for n, v in allf.items()},
                rewrites=[{'rule': r[0], 'what': r[1], 'count': r[2], 'in': r[3]} for r in unit.rewrites],
                assumptions=scan_assumptions(em), generated=path, verus_version=(res['json'].get('verus') or {}).get('version'))
+    if cl['status'] == 'violation':
+        # a failed proof in a function that now contains a construct the contract file has no contract for (a closure, a
+        # loop without invariant) is UNDECIDED, never an alarm: the verifier cannot see through it (Part I, false alarms)
+        nc = {f['emitted']: f.get('needs_contract') for f in unit.functions if f.get('needs_contract')}
+        real = [f for f in cl['failures'] if f.get('fn') not in nc]
+        if not real:
+            out['status'] = 'inconclusive'
+            out['note'] = 'proof failed in ' + ', '.join('%s (contains %s)' % (k, '; '.join(v)) for k, v in nc.items() if any(f.get('fn') == k for f in cl['failures']))
+            out['failures'] = []
+        else:
+            out['failures'] = real
     if cl['status'] == 'pass' and missing:
         out['status'] = 'inconclusive'
         out['note'] = 'no verification query was generated for: ' + ', '.join(missing)
